@@ -148,6 +148,46 @@ def mode_trait(enc):
             note='`InOutBuf::new(..).map(|blocks| self.encrypt_with_backend(..))`: closure capturing &mut self is outside this Verus; assumed, exercised by the *_b2b harnesses'),
     }
     padded = ['%s_padded_inout' % v, '%s_padded' % v, '%s_padded_b2b' % v, '%s_padded_vec' % v]
+    if not enc:
+        BSZ = '<Self as BlockSizeUser>::BlockSize::USIZE'
+        PD = ('C13', 'C01')
+        UNP = '''exists |blocks: Seq<Blk>| flatg(blocks) == %(inp)s
+                && (forall |i: int| 0 <= i < blocks.len() ==> (#[trigger] blocks[i]).len() == ''' + BSZ + ''')
+                && (r is Ok <==> P::unpad_spec(run(self.step(), self.abs(), blocks).1) is Some)
+                && (r is Ok ==> r->Ok_0@ == P::unpad_spec(run(self.step(), self.abs(), blocks).1)->Some_0)'''
+        fns['decrypt_padded_inout'] = FnC(ret='r', props=PD, requires=['data.wf()'], ensures=[
+            ('len', PD, 'data.out_fut().len() == data.out_cur().len()'),
+            ('reject_partial', ('C13',), 'data.out_cur().len() % (' + BSZ + ' as nat) != 0 ==> r is Err && data.out_fut() == data.out_cur()'),
+            ('unpad_of_decryption', PD, 'data.out_cur().len() % (' + BSZ + ' as nat) == 0 ==> ' + (UNP % {'inp': 'data.in_val()'}))],
+            stmts={'0': '''
+        broadcast use Array::axiom_len;
+        proof { <Self as BlockSizeUser>::BlockSize::block_size_bounds(); }
+        let ghost st0 = self.step();
+        let ghost a0 = self.abs();
+        let ghost d0 = data;
+''', '2': '''
+        let ghost gb = blocks;
+        let ghost gt = tail;
+''', '4': '''
+        proof {
+            assert(gt.out_cur() =~= Seq::<u8>::empty());
+            assert(gt.in_val() =~= Seq::<u8>::empty());
+            assert(d0.out_cur().len() % (''' + BSZ + ''' as nat) == 0);
+            flatg_len(aviews(gb.out_fut()), ''' + BSZ + ''' as nat);
+            flatg_len(aviews(gb.out_cur()), ''' + BSZ + ''' as nat);
+            assert(gt.out_fut() =~= Seq::<u8>::empty());
+        }
+'''}, note='')
+        fns['decrypt_padded'] = FnC(ret='r', props=PD, ensures=[
+            ('len', PD, 'final(buf)@.len() == old(buf)@.len()'),
+            ('reject_partial', ('C13',), 'old(buf)@.len() % (' + BSZ + ' as nat) != 0 ==> r is Err && final(buf)@ == old(buf)@'),
+            ('unpad_of_decryption', PD, 'old(buf)@.len() % (' + BSZ + ' as nat) == 0 ==> ' + (UNP % {'inp': 'old(buf)@'}))])
+        fns['decrypt_padded_b2b'] = FnC(ret='r', props=PD, ensures=[
+            ('len', PD, 'final(out_buf)@.len() == old(out_buf)@.len()'),
+            ('reject_small_output', ('C13',), 'old(out_buf)@.len() < in_buf@.len() ==> r is Err && final(out_buf)@ == old(out_buf)@'),
+            ('reject_partial', ('C13',), 'in_buf@.len() % (' + BSZ + ' as nat) != 0 ==> r is Err && final(out_buf)@ == old(out_buf)@'),
+            ('unpad_of_decryption', PD, 'old(out_buf)@.len() >= in_buf@.len() && in_buf@.len() % (' + BSZ + ' as nat) == 0 ==> ' + (UNP % {'inp': 'in_buf@'}))])
+        padded = ['decrypt_padded_vec']
     return Sel('trait BlockMode%srypt' % ('Enc' if enc else 'Dec'), members='''
     spec fn abs(&self) -> Abs;
     spec fn step(&self) -> Step;
